@@ -21,6 +21,71 @@ from .c19 import discover_factories
 HESS_KEY = "hess_fn"
 
 
+def _binders(node, stop):
+    """Loop / comprehension binders around ``node``, outermost first: [(set of bound names, iterable node)]"""
+    from ..astutil import parent
+    out = []
+    p_ = parent(node)
+    child = node
+    while p_ is not None and p_ is not stop:
+        if isinstance(p_, (ast.ListComp, ast.GeneratorExp, ast.SetComp, ast.DictComp)):
+            for g in reversed(p_.generators):
+                out.append(({x.id for x in ast.walk(g.target) if isinstance(x, ast.Name)}, g.iter, g.target))
+        elif isinstance(p_, ast.For) and child is not p_.iter:
+            out.append(({x.id for x in ast.walk(p_.target) if isinstance(x, ast.Name)}, p_.iter, p_.target))
+        child, p_ = p_, parent(p_)
+    return list(reversed(out))
+
+
+def _second_pass(prog, rep, ch):
+    """H[i][j] = d(grad[i]) / d variables[j] (or, the Hessian being symmetric, d(grad[j]) / d variables[i]): in the
+    second-pass call gradient(G, W), G must be the first-pass entry of ONE of the two loop indices and W the variable of
+    the OTHER.  Loops, nested comprehensions, enumerate and element loops are all read through their binders."""
+    params = [a.arg for a in ch.node.args.args]
+    expr_p, vars_p = params[0], params[1]
+    asg = local_assignments(ch.node)
+    first = {nm for nm, vals in asg.items() for v in vals if isinstance(v, ast.AST) and any(isinstance(c, ast.Call) and dotted(c.func) == "gradient" and c.args and src(c.args[0]) == expr_p for c in ast.walk(v))}
+    n1 = [c for c in calls(ch.node, local=False) if dotted(c.func) == "gradient" and len(c.args) == 2 and src(c.args[0]) == expr_p]
+    ok1 = bool(n1) and all(any(src(b_[1]) in (vars_p, f"enumerate({vars_p})") and src(c.args[1]) in b_[0] for b_ in _binders(c, ch.node)) for c in n1)
+    if not n1:
+        rep.undecided("compute_hessian: first pass gradient(expr, v) for v in variables not found")
+    else:
+        rep.ob("R17.1", "compute_hessian", ok1, "first pass: grad[i] = d expr / d variables[i]" if ok1 else "the first pass does not differentiate expr with respect to each entry of `variables` in order", loc=ch.loc, detail="first-pass", robust=False)
+    second = [c for c in calls(ch.node, local=False) if dotted(c.func) == "gradient" and len(c.args) == 2 and src(c.args[0]) != expr_p]
+    if not second:
+        rep.undecided("compute_hessian: second-pass call gradient(<first-pass entry>, <variable>) not found")
+        return
+    for c in second:
+        bs = _binders(c, ch.node)
+
+        def role(e, lists):
+            """depth of the binder that selects the entry of one of ``lists`` denoted by e, or None"""
+            if isinstance(e, ast.Subscript) and isinstance(e.value, ast.Name) and e.value.id in lists and isinstance(e.slice, ast.Name):
+                for d_, (names, it, tg) in enumerate(bs):
+                    if e.slice.id in names and (src(it).startswith("range(") or src(it).startswith("enumerate(")):
+                        return d_
+                return None
+            if isinstance(e, ast.Name):
+                for d_, (names, it, tg) in enumerate(bs):
+                    if e.id in names:
+                        its = src(it)
+                        if any(its == l_ or its == f"enumerate({l_})" for l_ in lists):
+                            return d_
+                        if its.startswith("zip(") and any(l_ in its for l_ in lists):
+                            return d_
+                return None
+            return None
+
+        rg, rw = role(c.args[0], first), role(c.args[1], {vars_p})
+        if rg is None or rw is None or len(bs) < 2:
+            rep.undecided(f"compute_hessian: second-pass call `{src(c)[:60]}`: which loop index selects the gradient entry / the variable is not readable")
+            continue
+        ok = rg != rw
+        rep.ob("R17.1", "compute_hessian", ok, "H[i][j] = d grad[i] / d variables[j], the two indices taken from different loops" if ok else
+               f"`{src(c)[:60]}` takes the first-pass entry and the variable from the SAME loop index: every row repeats d grad[k]/d var_k instead of the mixed partials",
+               loc=f"{ch.module.rel}:{c.lineno}", detail="second-pass", robust=True)
+
+
 def _hessian_for_backend(prog, rep, f):
     """The callable handed to scipy.optimize.minimize as ``hess=`` denotes s * Hessian(objective), s = -1 exactly when the
     user maximises (the backend minimises -objective), on the solve that compiles it AND on every later solve that finds
@@ -370,13 +435,7 @@ def _hessian_for_backend(prog, rep, f):
 
 def check(prog, rep):
     ch = prog.func("optyx.core.autodiff:compute_hessian")
-    s = src(ch.node)
-    a = "grad = [gradient(expr, var) for var in variables]" in s
-    b = Frag(s, "row.append(gradient(grad[i], variables[j]))", "for i in range(n):", "for j in range(n):", "hessian.append(row)")
-    rep.pin('hessian shape rules', "R17.1", "compute_hessian", a, "first pass: grad[i] = d expr / d variables[i]" if a else "the first pass is not [gradient(expr, var) for var in variables]", loc=ch.loc, detail="first-pass")
-    rep.pin('hessian shape rules', "R17.1", "compute_hessian", b, "H[i][j] = d grad[i] / d variables[j], both indices over the same list" if b else "H[i][j] is not gradient(grad[i], variables[j]) with i, j over range(n)", loc=ch.loc, detail="second-pass")
-    n_ok = "n = len(variables)" in s
-    rep.pin('hessian shape rules', "R17.1", "compute_hessian", n_ok, "n is the length of the caller's variable list" if n_ok else "the Hessian dimension is not len(variables)", loc=ch.loc, detail="dimension")
+    rep.section(_second_pass, prog, rep, ch)
     # closure of the rule set (shared with C02)
     from .c02 import _registered_rules
     from .c15 import registered_gradient_kinds
